@@ -17,7 +17,7 @@ import (
 // under every compression threshold, a document of exactly the default read
 // limit) written with wsjson.Write on one library endpoint and read with
 // wsjson.Read on the other, on connections whose read limit was never touched,
-// compression off / with / without context takeover, both directions. Each
+// compression off / with / without context takeover and the two asymmetric agreements, both directions. Each
 // document arrives as its JSON-equivalent.
 
 type c19SeqCase struct {
@@ -48,7 +48,9 @@ func c19SeqOne(c *fw.Ctx, cs c19SeqCase) {
 	tA := mxNewTransport()
 	connA := mxConn(tA, cs.AClient, cs.Comp)
 	defer connA.CloseNow()
-	inf := &deflate.Inflater{NoContextTakeover: cs.Comp == "no-takeover"}
+	// the sender's side of the agreement decides whether its compressor keeps its context
+	senderNCT := cs.Comp == "no-takeover" || (cs.AClient && cs.Comp == "client-nct") || (!cs.AClient && cs.Comp == "server-nct")
+	inf := &deflate.Inflater{NoContextTakeover: senderNCT}
 	for i, d := range cs.Docs {
 		v := c19SeqDocs[d]
 		before := tA.LogLen()
@@ -117,7 +119,7 @@ func c19SeqCases() []c19SeqCase {
 	}
 	gen(nil)
 	var out []c19SeqCase
-	for _, comp := range []string{"", "takeover", "no-takeover"} {
+	for _, comp := range []string{"", "takeover", "no-takeover", "client-nct", "server-nct"} {
 		for _, ac := range []bool{true, false} {
 			for _, s := range seqs {
 				out = append(out, c19SeqCase{Docs: s, AClient: ac, Comp: comp})
